@@ -1472,6 +1472,15 @@ where
                         // Iterate over our extended protocol data that we've buffered
                         let buffered_before = self.buffer.len();
 
+                        // In the middle of COPY FROM STDIN the server aborts the COPY on the first
+                        // of these messages (or of the ones we send on our own to prepare a statement)
+                        // and answers it with ReadyForQuery, then answers the Sync with a second one,
+                        // which nobody is going to read: this connection can't be given to another
+                        // client afterwards.
+                        if server.in_copy_mode() && !self.extended_protocol_data_buffer.is_empty() {
+                            server.mark_bad("extended protocol batch during COPY");
+                        }
+
                         while let Some(protocol_data) =
                             self.extended_protocol_data_buffer.pop_front()
                         {
@@ -1625,14 +1634,6 @@ where
                         }
 
                         if should_send_to_server {
-                            // In the middle of COPY FROM STDIN the server aborts the COPY on the first
-                            // of these messages and answers it with ReadyForQuery, then answers the
-                            // Sync with a second one, which nobody is going to read: this connection
-                            // can't be given to another client afterwards.
-                            if server.in_copy_mode() {
-                                server.mark_bad("extended protocol batch during COPY");
-                            }
-
                             self.send_and_receive_loop(
                                 code,
                                 None,
